@@ -1,7 +1,7 @@
-\* C36 leg A thorough: grid 0..11, <= 4 samples, values {1,2} or NaN or stale marker,
-\* r in {3,4}, numChunks 1..3: 141 905 series x 6; series with <= 3 samples go to the harness
+\* C36 leg A thorough: grid 0..9, <= 4 samples, values {1,2} or NaN or stale marker,
+\* r in {3,4}, numChunks 1..3: 62 201 series x 6 (about 2.6 M states); series with <= 3 samples go to the harness
 SPECIFICATION Spec
-CONSTANTS GridLen = 12
+CONSTANTS GridLen = 10
           MaxSamples = 4
           Vals = {1, 2}
           Tokens = {"NaN", "STALE"}
